@@ -2,7 +2,7 @@
    (with certificates), comparison of clause sets, stand-in solvers for the correspondence check.
    Nothing here is trusted by the theorems; `holds` uses only `consistentb`, `acyclicb`, `sat_cnf` and enumeration. *)
 From stdpp Require Import strings gmap sets fin_sets sorting.
-From CG Require Export Base.Cases Base.Oracle Model.Lint Model.Sat.
+From CG Require Export Base.Cases Base.Oracle Model.Lint Model.Sat Run.SatEnum.
 Local Open Scope list_scope.
 
 (* table-driven evaluation in rank order (linear per valuation; Sem.eval re-evaluates shared cones).  Nothing is
@@ -80,24 +80,31 @@ Definition asg_of (vars : list var) (m : N) : asg := λ x, N.testbit m (index_of
 Definition node_val_of (vars : list var) (nodes : list string) (m : N) : val :=
   lval (filter (λ n, asg_of vars m (VN n) = true) nodes).
 
-(* ---- the specification of an exact CNF, on a recorded clause list ---- *)
-Definition exh := 12%nat.
+(* ---- all models of a recorded clause list (Run/SatEnum.v), as (assigned, value) masks over `vars` ---- *)
+Definition ixs_of (vars : list var) : list N := N.of_nat <$> seq 0 (length vars).
+Definition models (vars : list var) (F : list clause) : list (N * N) :=
+  enum (S (length vars)) (ixs_of vars) (cl_ix vars <$> F) 0%N 0%N.
+Definition assigned (vars : list var) (am : N) (xs : list var) : bool := forallb (λ x, N.testbit am (index_of vars x)) xs.
+
+(* ---- the specification of an exact CNF, on a recorded clause list; both directions at every size ---- *)
+(* every satisfying assignment is consistent on the nodes: every leaf of the model enumeration assigns all node variables
+   and its node valuation is consistent (SatRunProofs.sound_check_spec ties this boolean to the Prop) *)
+Definition sound_check (c : circuit) (F : list clause) : bool :=
+  let nodes := elements (dom c) in
+  let vars := all_vars c F in
+  forallb (λ p : N * N, assigned vars p.1 (VN <$> nodes) && consistentb c (node_val_of vars nodes p.2)) (models vars F).
 Definition cnf_exact (c : circuit) (F : list clause) : bool :=
   let nodes := elements (dom c) in
   let vars := all_vars c F in
   match all_consistent c with
-  | TooBig => true
+  | TooBig => false       (* the generator keeps circuits within the enumerable range; fail closed otherwise *)
   | CertFail => false
   | Vals V =>
-      let Fi := cl_ix vars <$> F in
-      let sats := if (length vars <=? exh)%nat then filter (λ m, sat_ix m Fi = true) (masks (length vars)) else [] in
-      let svals := node_val_of vars nodes <$> sats in
+      let svals := (λ p : N * N, node_val_of vars nodes p.2) <$> filter (λ p : N * N, assigned vars p.1 vars = true) (models vars F) in
       (* every consistent valuation extends to a satisfying assignment (first try: auxiliaries by their definitions) *)
       forallb (λ v, sat_cnf (ext v) F || existsb (λ w, eq_on nodes w v) svals) V
-      (* every satisfying assignment is consistent on the nodes *)
-      && forallb (consistentb c) svals
+      && sound_check c F
   end.
-Definition cnf_checked_both_ways (c : circuit) (F : list clause) : bool := (length (all_vars c F) <=? exh)%nat.
 
 (* ---- stand-in solvers for the correspondence of solver-relative functions ---- *)
 (* the answer the implementation's solver gave, replayed: legal iff it satisfies the model's formula *)
